@@ -10,7 +10,7 @@ def bucket(e, entry):
     """(exception type, innermost frame inside jedi/ as file:function, API entry point)."""
     name = type(e).__name__
     if isinstance(e, RecursionError):
-        return "crash:RecursionError:%s" % entry.split(".")[0]
+        return "crash:RecursionError:%s" % entry.split("->")[-1].split(".")[-1].split("(")[0]
     tb = traceback.extract_tb(e.__traceback__)
     fr = [f for f in tb if "/repo/jedi/" in f.filename or "/jedi/" in f.filename and "/verif/" not in f.filename]
     if fr:
@@ -19,7 +19,8 @@ def bucket(e, entry):
     else:
         f = tb[-1] if tb else None
         where = (Path(f.filename).name + ":" + f.name) if f else "?"
-    return "crash:%s@%s:%s" % (name, where, entry.split("->")[-1])
+    attr = entry.split("->")[-1].split(".")[-1].split("(")[0]
+    return "crash:%s@%s:%s" % (name, where, attr)
 
 
 def tb_tail(e, n=7):
